@@ -13,7 +13,7 @@ Exhaustive for short histories, seeded random for long ones.
 import itertools
 import random
 
-from vf import core, engine, pool
+from vf import core, engine, pool, vclock
 from checks.c11 import neq, show
 
 LITS = [("1", 1), ("'s'", "s"), ("[1, 2]", [1, 2]), ("({a: 1})", {"a": 1}), ("null", None), ("true", True), ("2.5", 2.5)]
@@ -38,14 +38,16 @@ PROBES = [
     ("eval('1 + 1') + new Function('return 3')() + (function(){ return eval('eval(\"2\")'); })()", 7),
     ("/(a+)+b/.test('aaaaaaaac') || 'aaaaaaab'.replace(/(a+)+b/, 'x')", "x"),
     ("(function(){ var r = 0; [3, 1, 2].sort(function(a, b){ r++; return a - b; }); return r > 0; })()", True),
+    # a regex object created by an *earlier* eval (see the keep-regex operation) stays usable
+    ("typeof keptRe === 'undefined' ? 'none' : (keptRe.test('aaaaaaaac') ? 'hit' : 'miss')", ("none", "miss")),
 ]
 
 # operation kinds; each returns (source or python action, expectation kind)
 REPEATABLE_FAILS = ["fail-syntax", "fail-throw", "fail-loop", "fail-recursion", "fail-callback", "fail-regex", "fail-eval-nesting", "fail-native-depth", "fail-regex-loop"]
-OPS = ["fail-eval-nesting", "fail-native-depth", "fail-regex-loop", "def-var", "assign", "redeclare", "def-fn", "eval-def", "function-ctor-assign", "py-set", "mutate-builtin",
+OPS = ["keep-regex", "fail-eval-nesting", "fail-native-depth", "fail-regex-loop", "def-var", "assign", "redeclare", "def-fn", "eval-def", "function-ctor-assign", "py-set", "mutate-builtin",
        "fail-syntax", "fail-throw", "fail-loop", "fail-recursion", "fail-callback", "fail-regex", "mutate-in-place"]
 
-CONFIGS = [(None, None), (0.25, None), (None, 30000), (0.25, 30000)]  # T generous: probes run under it on a loaded machine
+CONFIGS = [(None, None), (0.08, None), (None, 30000), (0.08, 30000)]  # T in virtual time: 80 clock reads (see _init_virtual)
 
 
 def run_history(task):
@@ -62,7 +64,7 @@ def run_history(task):
         with pool.cpu_alarm(30):
             return ctxs[i].eval(src)
 
-    def observe():
+    def observe(full=True):
         for i, ctx in enumerate(ctxs):
             for name in NAMES + ["f0", "f1", "f2"]:
                 ent = models[i].get(name)
@@ -92,18 +94,18 @@ def run_history(task):
                 exp = bmods[i].get(rd, "UNSET")
                 if r != exp:
                     return {"ctx": i, "what": "built-in mutation leaked or lost", "read": rd, "expected": exp, "actual": show(r)}
-            for src, exp in PROBES:
+            for src, exp in (PROBES if full else PROBES[:3]):
                 with pool.cpu_alarm(30):
                     try:
                         r = ctx.eval(src)
                     except Exception as ex:
                         return {"ctx": i, "what": "probe raises", "probe": src, "actual": engine.exc_info(ex)}
-                if not neq(r, exp):
+                if not (r in exp if isinstance(exp, tuple) else neq(r, exp)):
                     return {"ctx": i, "what": "probe answers differently", "probe": src, "expected": exp, "actual": show(r)}
         return None
 
     try:
-        bad = observe()
+        bad = observe(full=False)
         if bad:
             bad["trace"] = ["<pristine>"]
             return bad
@@ -184,6 +186,8 @@ def run_history(task):
                 src = "var %s = %s; [1, 2].forEach(function(x){ var o = { get p(){ return null.x; } }; return o.p; });" % (name, lsrc)
                 models[ci][name] = ("val", lval)
                 expect_fail = True
+            elif op == "keep-regex":
+                src = "var keptRe = /(a+)+b/;"
             elif op == "fail-eval-nesting":
                 src = "var %s = %s; var dive = function(){ return eval('dive()'); }; dive();" % (name, lsrc)
                 models[ci][name] = ("val", lval)
@@ -220,7 +224,8 @@ def run_history(task):
                         return {"ctx": ci, "what": "wrong limit error", "trace": trace[-6:], "expected": expect_fail, "actual": info["cls"]}
             stepno = len(trace)
             if len(steps) < 50 or stepno % 10 == 0 or (ci, op, ni, li) == steps[-1]:
-                bad = observe()
+                # the whole probe battery after a failing eval and at the end, a light one otherwise
+                bad = observe(full=bool(expect_fail) or stepno >= len(steps) - 1 or len(steps) >= 50)
                 if bad:
                     bad["trace"] = trace[-6:]
                     bad["after"] = op
@@ -234,6 +239,12 @@ def run_history(task):
 
 def run_histories(tasks):
     return [run_history(t) for t in tasks]
+
+
+def _init_virtual():
+    # Time-limited contexts run under the virtual clock (1 ms per clock read): a probe can never reach the
+    # limit because the machine is busy, and an interrupted loop ends after exactly T/delta reads.
+    vclock.install()
 
 
 def nontrivial_history(steps):
@@ -254,7 +265,7 @@ def main(chk):
         "names, built-in isolation, 12-probe battery); non-trivial = a failing eval followed by >= 2 successful operations on the "
         "same context, or a built-in mutation followed by operations on another context; distinct by history" % len(OPS)
     )
-    chk.assumptions = ["time-limited contexts use the real clock with T = 250 ms; the model of an interrupted counter loop is only monotone (>=)"]
+    chk.assumptions = ["time-limited contexts run under the virtual clock (T = 80 clock reads), so no outcome depends on machine load; the model of an interrupted counter loop is only monotone (>=)"]
     for path, rec in core.saved_replays("C12"):
         r = replay(rec)
         chk.count()
@@ -267,7 +278,7 @@ def main(chk):
     alphabet = [(c, op) for c in (0, 1) for op in OPS]
     allh = itertools.product(alphabet, repeat=L)
     for idx, h in enumerate(allh):
-        if quick and (idx + chk.seed) % 24 != 0:
+        if quick and (idx + chk.seed) % 30 != 0:
             continue
         steps = [(c, op, (idx + j) % 3, (idx // 3 + j) % len(LITS)) for j, (c, op) in enumerate(h)]
         tasks.append(((3, 0), steps))
@@ -275,7 +286,7 @@ def main(chk):
     # the same failure repeated many times on one context: nothing may accumulate (counters, handlers, caches)
     for op in REPEATABLE_FAILS:
         for cfg in (3, 1, 2):
-            reps = 70 if op not in ("fail-loop", "fail-regex-loop") else 12
+            reps = 70 if op not in ("fail-loop", "fail-regex-loop") else 8
             steps = [(0, op, 0, 1)] * reps + [(0, "def-var", 1, 2), (1, "def-var", 2, 3)]
             tasks.append(((cfg, 0), steps))
     rnd = random.Random(core.shard_seed(chk.seed, "C12", "random"))
@@ -292,10 +303,10 @@ def main(chk):
     chk.extra["exhaustive_histories_len3"] = exhaustive_n
     batches = pool.chunks(tasks, 40)
     seen_sigs = set()
-    res = pool.run(run_histories, batches, timeout=1200)
+    res = pool.run(run_histories, batches, timeout=1200, init=_init_virtual)
     for b, rb in zip(batches, res):
         if isinstance(rb, (pool.HANG, pool.CRASH)):
-            rs = pool.run(run_histories, [[t] for t in b], timeout=200)
+            rs = pool.run(run_histories, [[t] for t in b], timeout=200, init=_init_virtual)
             rb = [("HANG" if isinstance(r, pool.HANG) else "CRASH") if isinstance(r, (pool.HANG, pool.CRASH)) else r[0] for r in rs]
         for (cfgs, steps), bad in zip(b, rb):
             chk.count()
@@ -319,7 +330,13 @@ def main(chk):
 
 
 def shrink(cfgs, steps, bad):
-    """Drop steps while the history still fails (same 'what')."""
+    """Drop steps while the history still fails (same 'what').  Runs in a virtual-clock worker."""
+    r = pool.run(_shrink_worker, [(cfgs, list(steps), bad)], timeout=900, init=_init_virtual)[0]
+    return r if not isinstance(r, (pool.HANG, pool.CRASH)) else (list(steps), bad)
+
+
+def _shrink_worker(arg):
+    cfgs, steps, bad = arg
     cur, curbad = list(steps), bad
     i = 0
     while i < len(cur) and len(cur) > 1:
@@ -334,5 +351,7 @@ def shrink(cfgs, steps, bad):
 
 def replay(rec):
     case = rec["case"]
-    bad = run_history((tuple(case["configs"]), [tuple(s) for s in case["steps"]]))
+    bad = pool.run(run_history, [(tuple(case["configs"]), [tuple(s) for s in case["steps"]])], timeout=600, init=_init_virtual)[0]
+    if isinstance(bad, (pool.HANG, pool.CRASH)):
+        bad = {"what": repr(bad)}
     return {"fails": bool(bad), "expected": (bad or {}).get("expected"), "actual": bad or "agrees"}
